@@ -12,8 +12,10 @@ import (
 	"crypto/ed25519"
 	"encoding/hex"
 	"fmt"
+	"io"
 	"net"
 	"sync"
+	"sync/atomic"
 	"time"
 
 	"go.sia.tech/core/consensus"
@@ -48,6 +50,9 @@ type world struct {
 	l              net.Listener
 
 	ids map[types.Hash256]uint64 // hash -> small id for the Coq cases
+
+	sess *session            // non-nil: exchanges run on this long-lived transport
+	last map[string][][]byte // per RPC: what the host sent in the previous exchange of the session
 }
 
 func newWorld(r *rng.R) *world {
@@ -56,7 +61,7 @@ func newWorld(r *rng.R) *world {
 		r.Bytes(seed)
 		return types.NewPrivateKeyFromSeed(seed)
 	}
-	w := &world{hk: key(), rk: key(), ak: key(), xk: key(), pk2: key(), byRoot: map[types.Hash256]*sector{}, ids: map[types.Hash256]uint64{}}
+	w := &world{hk: key(), rk: key(), ak: key(), xk: key(), pk2: key(), byRoot: map[types.Hash256]*sector{}, ids: map[types.Hash256]uint64{}, last: map[string][][]byte{}}
 	w.hpk = w.hk.PublicKey()
 	n, genesis := testutil.V2Network()
 	_ = genesis
@@ -214,6 +219,9 @@ func encode(o proto4.Object) []byte {
 // exchange runs call against a host that serves every stream of one fresh
 // siamux connection with handler. It reports a panic or a hang of the renter.
 func (w *world) exchange(peer types.PrivateKey, handler func(s net.Conn, x *xchg), call func(ctx context.Context, t rhp4.TransportClient)) (x *xchg, panicked any, hung bool) {
+	if w.sess != nil {
+		return w.sess.exchange(handler, call)
+	}
 	x = &xchg{}
 	var wg sync.WaitGroup
 	wg.Add(1)
@@ -398,4 +406,201 @@ func (w *world) fSigner(f foreign) types.PrivateKey {
 // contract's host key (what RPCSectorRoots must check).
 func (w *world) pricesByContractHost(p proto4.HostPrices) bool {
 	return p.Validate(w.hpk) == nil
+}
+
+// A session is one long-lived siamux connection to the Byzantine host over which
+// many renter calls are made one after the other (history dimension): the host
+// serves every stream with the handler of the exchange that is current when the
+// stream arrives. A sync stream after each call makes the association exact.
+type session struct {
+	w    *world
+	t    rhp4.TransportClient
+	mu   sync.Mutex
+	h    func(net.Conn, *xchg)
+	x    *xchg
+	ack  chan struct{}
+	done chan struct{}
+}
+
+var syncID = types.NewSpecifier("C10HarnessSync")
+
+type prefixConn struct {
+	net.Conn
+	r io.Reader
+}
+
+func (p *prefixConn) Read(b []byte) (int, error) { return p.r.Read(b) }
+
+func (w *world) openSession(peer types.PrivateKey) *session {
+	s := &session{w: w, ack: make(chan struct{}, 1), done: make(chan struct{})}
+	go func() {
+		defer close(s.done)
+		conn, err := w.l.Accept()
+		if err != nil {
+			return
+		}
+		defer conn.Close()
+		m, err := mux.Accept(conn, ed25519.PrivateKey(peer))
+		if err != nil {
+			return
+		}
+		defer m.Close()
+		for {
+			st, err := m.AcceptStream()
+			if err != nil {
+				return
+			}
+			st.SetDeadline(time.Now().Add(8 * time.Second))
+			var id [16]byte
+			if _, err := io.ReadFull(st, id[:]); err != nil {
+				st.Close()
+				continue
+			}
+			if types.Specifier(id) == syncID {
+				st.Write([]byte{1})
+				st.Close()
+				s.ack <- struct{}{}
+				continue
+			}
+			s.mu.Lock()
+			h, x := s.h, s.x
+			s.mu.Unlock()
+			x.mu.Lock()
+			x.Streams++
+			x.mu.Unlock()
+			func() {
+				defer func() {
+					if r := recover(); r != nil {
+						x.note("host handler panic: %v", r)
+					}
+				}()
+				h(&prefixConn{Conn: st, r: io.MultiReader(bytes.NewReader(id[:]), st)}, x)
+			}()
+			st.Close()
+		}
+	}()
+	ctx, cancel := context.WithTimeout(context.Background(), 10*time.Second)
+	defer cancel()
+	t, err := siamux.Dial(ctx, w.l.Addr().String(), peer.PublicKey())
+	if err != nil {
+		panic(fmt.Sprintf("dial: %v", err))
+	}
+	s.t = t
+	return s
+}
+
+func (s *session) exchange(handler func(net.Conn, *xchg), call func(ctx context.Context, t rhp4.TransportClient)) (x *xchg, panicked any, hung bool) {
+	x = &xchg{}
+	s.mu.Lock()
+	s.h, s.x = handler, x
+	s.mu.Unlock()
+	ctx, cancel := context.WithTimeout(context.Background(), 10*time.Second)
+	defer cancel()
+	done := make(chan struct{})
+	go func() {
+		defer close(done)
+		defer func() {
+			if r := recover(); r != nil {
+				panicked = r
+			}
+		}()
+		call(ctx, s.t)
+	}()
+	select {
+	case <-done:
+	case <-time.After(12 * time.Second):
+		hung = true
+	}
+	// every stream of this call is served before the sync stream is
+	st, err := s.t.DialStream(ctx)
+	if err == nil {
+		st.SetDeadline(time.Now().Add(5 * time.Second))
+		st.Write(syncID[:])
+		var b [1]byte
+		io.ReadFull(st, b[:])
+		st.Close()
+		select {
+		case <-s.ack:
+		case <-time.After(5 * time.Second):
+		}
+	}
+	x.finish()
+	return
+}
+
+func (s *session) close() {
+	s.t.Close()
+	<-s.done
+}
+
+// A rawSession is a long-lived transport whose streams are all served concurrently by one
+// handler (interleaving dimension: the handler decides the order of the answers).
+type rawSession struct {
+	t    rhp4.TransportClient
+	done chan struct{}
+}
+
+var orderDone atomic.Bool
+
+func (w *world) openRawSession(handler func(net.Conn)) *rawSession {
+	s := &rawSession{done: make(chan struct{})}
+	go func() {
+		defer close(s.done)
+		conn, err := w.l.Accept()
+		if err != nil {
+			return
+		}
+		defer conn.Close()
+		m, err := mux.Accept(conn, ed25519.PrivateKey(w.hk))
+		if err != nil {
+			return
+		}
+		defer m.Close()
+		var wg sync.WaitGroup
+		for {
+			st, err := m.AcceptStream()
+			if err != nil {
+				break
+			}
+			st.SetDeadline(time.Now().Add(8 * time.Second))
+			wg.Add(1)
+			go func() {
+				defer wg.Done()
+				defer st.Close()
+				defer func() { recover() }()
+				handler(st)
+			}()
+		}
+		wg.Wait()
+	}()
+	ctx, cancel := context.WithTimeout(context.Background(), 10*time.Second)
+	defer cancel()
+	t, err := siamux.Dial(ctx, w.l.Addr().String(), w.hpk)
+	if err != nil {
+		panic(fmt.Sprintf("dial: %v", err))
+	}
+	s.t = t
+	return s
+}
+
+func (s *rawSession) close() {
+	s.t.Close()
+	<-s.done
+}
+
+// pricesWith returns a price table with every price set to v, signed by the host.
+func (w *world) pricesWith(v types.Currency) proto4.HostPrices {
+	p := w.prices
+	p.ContractPrice, p.Collateral, p.StoragePrice, p.IngressPrice, p.EgressPrice, p.FreeSectorPrice = v, v, v, v, v, v
+	p.Signature = w.hk.SignHash(p.SigHash())
+	return p
+}
+
+var priceSpread = []struct {
+	name string
+	v    types.Currency
+}{
+	{"prices-zero", types.ZeroCurrency},
+	{"prices-one-hasting", types.NewCurrency64(1)},
+	{"prices-large", types.NewCurrency64(1_000_000_000_000_000)},
 }
